@@ -20,7 +20,8 @@ from vp.harness import engine_h as _engine_h   # noqa: F401  imported here (by t
 #                                                the openpectus import costs seconds of CPU and would otherwise be paid per shard
 
 CONTAINERS = ("Block", "Watch", "Alarm", "Macro")
-EDIT_KINDS = ("append_end", "append_scope", "change", "insert", "delete", "ws", "change_started")
+EDIT_KINDS = ("append_end", "append_scope", "change", "insert", "delete", "ws", "change_started", "reindent_started",
+              "append_macro")
 USER_CMDS = ("Pause", "Unpause", "Hold", "Unhold")
 QUIET_TICKS = 20      # > longest generated Wait / threshold (1.5 s = 15 ticks)
 MAX_TICKS = 400
@@ -144,6 +145,8 @@ def leaf_text(leaf: dict, num: int, long_cmd: str = "Slow", quick_cmd: str = "Qu
     if k == "quick":
         return "%s: %s" % (quick_cmd, ("e%d" % num) if quick_cmd == "Quick" else "%d.%03d" % (2 + num % 7, num))
     if k == "slow":
+        if long_cmd is None:       # no long-running command name left for this snippet: an instant command instead
+            return "%s: %d.%03d" % (quick_cmd, 2 + num % 7, num)
         return "%s: %d.%03d" % (long_cmd, int(leaf.get("n", 1)), num)
     if k == "wait":
         return "Wait: %ss" % G._fmt(float(leaf.get("d", 0.1)))
@@ -249,7 +252,47 @@ def _changed_started_text(text: str) -> str | None:
     return None
 
 
+def called_macros(S: "Struct", ms: dict) -> list[int]:
+    """indexes of Macro lines that the REPORTED method state shows as started executing: a body line is started/executed/
+    failed, or a 'Call macro' line naming it is executed.  (Under-approximation: a call whose first body line still awaits
+    its threshold, or whose state an Alarm re-arm has cleared, is not counted.)"""
+    touched = (ms["started"] | ms["executed"] | ms["failed"]) - {"root"}
+    out = []
+    for i in range(len(S.lines)):
+        if S.ins[i] != "Macro":
+            continue
+        name = split_line(S.lines[i][1])[2]
+        body = any(S.lines[j][0] in touched for j in range(i + 1, S.subtree_end(i)))
+        call = any(S.ins[j] == "Call macro" and split_line(S.lines[j][1])[2] == name and S.lines[j][0] in ms["executed"]
+                   and j >= S.subtree_end(i) for j in range(len(S.lines)))
+        if body or call:
+            out.append(i)
+    return out
+
+
+def macro_source(S: "Struct", i: int) -> list[str]:
+    """the significant (non blank, non comment) lines of a macro, without surrounding whitespace, with their relative depth"""
+    return ["%d|%s" % (S.depth[j] - S.depth[i], S.lines[j][1].strip()) for j in range(i, S.subtree_end(i))
+            if S.ins[j] not in ("", "Comment")]
+
+
 def resolve_edit(lines, ms: dict, op: dict, edit_no: int, long_cmd="Slow", quick_cmd="Quick"):
+    """-> (new_lines | None, info).  info additionally says whether the edit changes the source of a macro that has started
+    executing (info["started_macro_edit"] = [macro line ids]); such an edit, like a change of a started line, must be rejected."""
+    new, info = _resolve_edit(lines, ms, op, edit_no, long_cmd, quick_cmd)
+    info["started_macro_edit"] = []
+    if new is not None:
+        S, N = Struct(lines), Struct(new)
+        for i in called_macros(S, ms):
+            j = N.index.get(lines[i][0])
+            if j is None or N.ins[j] != "Macro" or macro_source(S, i) != macro_source(N, j):
+                info["started_macro_edit"].append(lines[i][0])
+        if info["started_macro_edit"]:
+            info["expect_reject"] = True
+    return new, info
+
+
+def _resolve_edit(lines, ms: dict, op: dict, edit_no: int, long_cmd="Slow", quick_cmd="Quick"):
     """lines: current [[id, text]]; ms: {"started": set, "executed": set, "failed": set}.
     -> (new_lines | None, info) ; info: kind (after fallbacks), target id, target_touched, expect_reject, nested, ..."""
     S = Struct(lines)
@@ -267,6 +310,45 @@ def resolve_edit(lines, ms: dict, op: dict, edit_no: int, long_cmd="Slow", quick
     def untouched_subtree(i):
         return all(lines[j][0] not in touched for j in range(i, S.subtree_end(i)))
 
+    if kind == "append_macro":
+        # append instructions at the end of a macro body: preferably of a macro that has started executing (must be rejected),
+        # else of any macro (an ordinary edit), else at the end of the method
+        called = called_macros(S, ms)
+        cand = called or [i for i in range(n) if S.ins[i] == "Macro"]
+        if cand:
+            i = cand[idx % len(cand)]
+            items = [q if q["k"] not in ("blank", "comment") else {"k": "mark"} for q in payload[:1]] + payload[1:]
+            pos = S.subtree_end(i)
+            while pos - 1 > i and S.ins[pos - 1] in ("", "Comment"):
+                pos -= 1          # behind the last instruction of the body, in front of trailing blank/comment lines
+            info.update(target=lines[i][0], touched=lines[i][0] in touched, nested=True, macro_called=bool(called))
+            return lines[:pos] + new_lines_at(S.depth[i] + 1, items) + lines[pos:], info
+        info["fallback"] = "append_end"
+        kind = info["kind"] = "append_end"
+    if kind == "reindent_started":
+        # change ONLY the indentation of a started line so that it moves into another scope:
+        #  'in'  - the line follows a Block/Watch/Alarm/Macro of its own depth: indent it (and its subtree) into that body
+        #  'out' - the line is the last child of its parent (which keeps another instruction): de-indent it behind the parent
+        cand = []
+        for i in range(n):
+            if lines[i][0] not in touched or S.ins[i] in ("", "Comment"):
+                continue
+            prev = [j for j in range(i) if S.parent[j] == S.parent[i]]
+            if prev and S.ins[prev[-1]] in CONTAINERS and S.subtree_end(prev[-1]) == i and S.children(prev[-1]):
+                cand.append((i, "in"))
+            par = S.parent[i]
+            if par is not None and S.subtree_end(i) == S.subtree_end(par) and \
+                    [j for j in S.children(par) if j != i and S.ins[j] not in ("", "Comment")]:
+                cand.append((i, "out"))
+        if not cand:
+            info["fallback"] = "none"
+            return None, info
+        i, how = cand[idx % len(cand)]
+        new = [list(l) for l in lines]
+        for j in range(i, S.subtree_end(i)):
+            new[j][1] = ("    " + lines[j][1]) if how == "in" else lines[j][1][4:]
+        info.update(target=lines[i][0], touched=True, expect_reject=True, nested=True, reindent=how)
+        return new, info
     if kind == "append_scope":
         cand = [i for i in range(n) if S.ins[i] in CONTAINERS and lines[i][0] not in ms["executed"] and lines[i][0] not in ms["failed"]]
         if cand:
@@ -432,7 +514,13 @@ def run_script(lines0, traj, ops, *, edit_cmds=("Slow", "Quick"), inj_cmds=("Slo
                     except ValueError:
                         res["users"].append((t, o["name"], False))
                 elif o["op"] == "inject":
-                    pcode, keys, has_block = render_snippet(o["snippet"], 800 + 10 * i, inj_cmds[0], inj_cmds[1])
+                    # inj_cmds: one (long, quick) pair, or a list of pairs indexed by the ordinal of the injection in `ops`
+                    # (a name is used by one snippet only: same-name commands cancel each other)
+                    ic = inj_cmds
+                    if isinstance(inj_cmds, list):
+                        ordinal = len([1 for k2, o2 in enumerate(ops) if o2["op"] == "inject" and k2 < i])
+                        ic = inj_cmds[min(ordinal, len(inj_cmds) - 1)]
+                    pcode, keys, has_block = render_snippet(o["snippet"], 800 + 10 * i, ic[0], ic[1])
                     before = ms_sets(h.method_state())
                     running_cmds = sorted(h.uod.command_instances.keys()) if hasattr(h.uod, "command_instances") else []
                     h.inject(pcode)
